@@ -53,7 +53,7 @@ def generate(ck, thorough):
     ck.require(all(long_first[("main", f, n)] >= 1 for f in (False, True) for n in (64, 128, 256)) and
                sum(v for (g, f, n), v in long_first.items() if g == "aux") >= 6,
                "long sequences missing: %s" % dict(long_first))
-    ck.require(all(s["blowups"] == [2, 4, 8, 16] for s in sc if s["fam"] == "long") and all(len(s["blowups"]) >= 2 for s in sc if s["fam"] == "pair")
+    ck.require(all(s["blowups"][:3] == [2, 4, 8] for s in sc if s["fam"] == "long") and any(s["blowups"] == [2, 4, 8, 16] for s in sc if s["fam"] == "long") and all(len(s["blowups"]) >= 2 for s in sc if s["fam"] == "pair")
                and sum(1 for s in sc if s["fam"] in ("rand", "each") and 16 in s["blowups"]) >= 20,
                "LDE blowups 2x/4x/8x the constraint evaluation blowup are missing from the prover-evaluator cases")
     ck.require({s["d"] for s in sc} == {1, 2, 3} and {s["P"] for s in sc} >= {97, 193, 257, 40961}, "fields / extension degrees missing")
